@@ -118,7 +118,13 @@ def _rerun_alone(prop: str, engine, root: bytes, item, cap: float,
                 frames = [ln.strip() for ln in f if ln.strip().startswith(
                     "File ")]
             if frames:
-                where = frames[0]
+                # the dump lists all threads, innermost frame first; a frame
+                # of the repository anywhere below the innermost one means
+                # that repository code is looping and merely calls into a
+                # stub of the simulator: that is the repository's hang
+                repo_frames = [f for f in frames
+                               if (os.sep + "moptipyapps" + os.sep) in f]
+                where = repo_frames[0] if repo_frames else frames[0]
                 err = "timeout; innermost frames: " + " <- ".join(frames[:4])
     if os.path.exists(dump):
         os.remove(dump)
